@@ -11,5 +11,6 @@ CONSTANTS
   MaxFatal = 1
   Timer = FALSE
   EmitMode = "final"
+  Record = TRUE
 INVARIANTS TypeOK PerSeriesOrder NoDup NoDropLeak Conservation ShardFifo Complete EmitFinal
 CHECK_DEADLOCK FALSE
